@@ -26,5 +26,5 @@ fn main() {
             eprintln!("step {:5} T{} {} a={:#x} b={:#x}", step, thread, k, a, b);
         }
     }
-    println!("{}", serde_json::to_string(&serde_json::json!({"sub": "resize", "case": ConcCase { prog: cc.prog.clone(), schedule: Some(min.switches) }})).unwrap());
+    println!("{}", serde_json::to_string(&serde_json::json!({"sub": "resize", "case": ConcCase { prog: cc.prog.clone(), schedule: Some(min.switches), budget: None }})).unwrap());
 }
